@@ -9,5 +9,5 @@ CONSTANTS
   MaxSnaps = 2
   MaxStmts = 3
   McAlphabet = "small"
-  WithFollower = TRUE
+  Reduced = FALSE
 INVARIANTS Converge LogDeterministic RewrittenIffMust Emit
